@@ -675,6 +675,14 @@ def p1Sites (O : Oracles) (scr : List (String × List (Option String))) (doc : L
     | none => none
     | some v => if v.isNone then none else p1Site O ((lookup nf.1 scr).getD []) nf.1 nf.2 v
 
+/-- a key-renaming mapper (`_serialization_mapper` / `_deserialization_mapper` dict, TO_LOWERCASE,
+    TO_CAMELCASE, `Deserializer(mapper=…)`, `camel_case_convert`; aggregated to field ↦ document key):
+    `construct_fields_map` reads field `f` under its mapped key but passes the FIELD name on as the
+    error-path name, so the phase-one model runs on the document re-keyed by field names -/
+def docOfMapped (m : List (String × String)) (raw : List (String × PyVal))
+    (fields : List (String × FieldDecl)) : List (String × PyVal) :=
+  fields.filterMap fun nf => (lookup ((lookup nf.1 m).getD nf.1) raw).map fun v => (nf.1, v)
+
 /-- a `named` site's text begins with its own field's name -/
 def P1Site.namesOwnField (s : P1Site) : Bool :=
   match s.head with
